@@ -69,7 +69,9 @@ namespace c09
         void serialize(igris::archive::binary_serializer_basic &m) const
         {
             m.dump(id);
-            m.dump(igris::buffer(body.data(), body.size()));
+            // an empty body is written from an unset view (null data pointer, size 0): still a length of zero on the wire
+            if (body.empty()) m.dump(igris::buffer());
+            else m.dump(igris::buffer(body.data(), body.size()));
         }
         void deserialize(igris::archive::binary_deserializer_basic &m)
         {
